@@ -169,7 +169,7 @@ def main():
         klass = getattr(pc, cls)
         code = klass(*s)
         n = code.n
-        if n > 8:
+        if n > 7:       # 4^8 values per case make literals the proof assistant cannot read in reasonable time
             continue
         choices = [(None, None)] + [(nm, ax) for nm in klass.deformation_names for ax in dc.AXES.get(cls, [None])]
         for (a, b, c) in ([(1, 2, 5), (0, 4, 4), (8, 0, 0), (2, 4, 2)] + rng.sample(dirs, 2)):
